@@ -24,7 +24,8 @@ func (ial *IndentAwareLexer) NextToken() antlr.Token {
 	}
 	if ial.GetInputStream().Size() == 0 {
 		ial.hitEOF = true
-		return antlr.NewCommonToken(ial.GetTokenSourceCharStreamPair(), antlr.TokenEOF, antlr.TokenDefaultChannel, -1, -1)
+		// like the EOF token the base lexer emits: an empty interval at the end of the input
+		return antlr.NewCommonToken(ial.GetTokenSourceCharStreamPair(), antlr.TokenEOF, antlr.TokenDefaultChannel, 0, -1)
 	}
 
 	ial.checkNextToken()
